@@ -85,12 +85,12 @@ Proof. exists w_gx. split; reflexivity. Qed.
 Theorem C15_xibc_genesis_relayer_now_rejected : gx_validate w_gx = Err.
 Proof. reflexivity. Qed.
 
-(** STILL OPEN at /repo HEAD (finding bsc-upgrade-malformed-signer-key): genesis metadata is validated only
+(** Finding bsc-upgrade-malformed-signer-key (found by this check; fixed by 0d61436): genesis metadata is validated only
     for a non-empty key and value; the key "recentSingers" (prefix without "/<height>") under a BSC client is
     imported, and the next validated UpgradeClient proposal for that client indexes
     strings.Split(key, "/")[1] in DeleteAllSigner: a panic inside the governance handler.  The state
-    invariant [xstate_wf] of validated_never_panics_xibc_proposal is necessary, and InitGenesis of a
-    VALIDATED genesis can break it. *)
+    invariant [xstate_wf] of validated_never_panics_xibc_proposal_old_parser is necessary, and InitGenesis
+    of a VALIDATED genesis can break it. *)
 Definition w_bsc : client_state := CsBSC (w_header 200 137 256 8) 56 200 1000 true.
 Definition w_gx_signer : gx_genesis :=
   {| gx_clients := [(B "bsc-chain", AnyVal w_bsc)]; gx_consensus := [];
